@@ -65,6 +65,7 @@ PROPS = {
     "C13": node("C13", required=["send_ok"], variants=["epidemic", "spray", "binary_spray", "prophet", "dtlsr", "sensor-mule"]),
     "C14": node("C14", required=["send_ok", "same_ms_submission"]),
     "C15": node("C15", required=["send_ok", "status_report_judged"]),
+    "C18": node("C18", variants=["spray", "binary_spray"], required=["send_ok", "spray_copy_given", "binary_spray_transmission_judged"]),
 }
 
 DST = "deterministic simulation with fault injection: seeded search over scripts, schedules and fault sequences"
@@ -95,6 +96,10 @@ MANIFEST_TEXT = {
     "C14": {"text": "Seeded groups of same-millisecond / zero-time / concurrent submissions through Core.SendBundle and the agent manager; oracle: pairwise distinct "
                     "wire IDs, one store record per submission, store key = wire ID.",
             "design_ref": "DESIGN.md §4 C14", "note": NODE_NOTE, "technique": DST},
+    "C18": {"text": "Seeded histories (budgets 1..8, 0..6 peers, failures, retries, interleaved failure reports at the spray write-back hooks); oracles on the wire: vanilla spray never exceeds "
+                    "L-1 successful transmissions and hands out all copies once faults stop; binary spray announces exactly half (rounded down) of what the sequence of outcomes says it holds, never "
+                    "transmits a single copy to a non-destination, and a failure restores the count.",
+            "design_ref": "DESIGN.md §4 C18, App. A.4", "note": NODE_NOTE, "technique": DST},
     "C15": {"text": "Every administrative record the node emits (seen at scripted peers, at local agents, or pending in the store) is decoded and matched against "
                     "the harness's event log: requested, truthful, addressed to report-to, exact referenced ID, time iff requested, never about admin records or "
                     "own report-to, bounded count. Seeded draw over flag x outcome combinations.",
